@@ -23,6 +23,8 @@ SAFE_METHODS = {
     tuple: {"index", "count"},
     set: {"add", "union", "copy", "difference", "intersection", "issubset", "issuperset", "isdisjoint", "symmetric_difference", "update", "discard", "remove", "pop"},
     frozenset: {"union", "copy", "difference", "intersection", "issubset", "issuperset", "isdisjoint", "symmetric_difference"},
+    slice: {"indices"},
+    range: {"index", "count"},
 }
 def _frame(*a, **k):
     from .framemodel import Frame
@@ -295,6 +297,8 @@ class Interp:
         if isinstance(base, (str, int, float, bool, tuple, list, dict, set, frozenset, type(None))) and e.attr == "__class__":
             return type(base)
         if isinstance(base, type) and e.attr in ("__name__", "__qualname__"):
+            return getattr(base, e.attr)
+        if isinstance(base, (slice, range)) and e.attr in ("start", "stop", "step"):
             return getattr(base, e.attr)
         if isinstance(base, (str, int, float, bool, tuple, list, dict, set, frozenset, type(None))) and not hasattr(base, e.attr):
             raise EvalRaise("AttributeError", e)
